@@ -3,7 +3,8 @@ import ast
 import re
 
 from sa.algebra import Evaluator, Poly, Undecided
-from sa.common import expand_name, returns_of, resolved_calls
+from sa import guards as GD
+from sa.common import value_alternatives, expand_name, returns_of, resolved_calls
 from sa.defuse import DefUse, loc_name
 from sa.model import AnalysisError, AnchorMissing, const_value, src, walk_function
 from sa.struct import call_name, find, kwarg, norm, string_value
@@ -218,31 +219,40 @@ def d2_ap_lf(ctx):
                       key="np2-formula")
     if not (seen_np1 and seen_np2):
         raise AnchorMissing(f"{FN}: NP1 or NP2 gain table missing")
-    # int2volt = range / maxint
+    # int2volt = range / maxint : every value the scalar can take, with the branch predicates it is computed under
     inner = repo.functions.get(FN + ".int2volts")
-    if inner is None:
-        ctx.note("nested int2volts helper not found; range/max-int clause evaluated on the outer function")
-        inner = fi
-    du2 = DefUse(inner.node)
-    cfg = du2.cfg
+    table = []
+    if inner is not None:
+        du2 = DefUse(inner.node)
+        for r in returns_of(inner.node):
+            if r.value is not None:
+                table += [(gs, v, r, inner) for gs, v in value_alternatives(du2, r.value, r)]
+    else:
+        ctx.note("nested int2volts helper not found; range/max-int clause evaluated on the definitions of int2volt")
+        for d in [d for d in du.defs if d.var == "int2volt" and d.kind == "assign" and d.value is not None]:
+            table += [(gs, v, d.stmt, fi) for gs, v in value_alternatives(du, d.value, d.stmt)]
     n = 0
-    for r in returns_of(inner.node):
-        v = r.value
+    for gs, v, at_node, owner in table:
         if not (isinstance(v, ast.BinOp) and isinstance(v.op, ast.Div)):
             continue
         n += 1
         num, den = v.left, v.right
-        den_v = expand_name(du2, den, r)
-        ok_den = isinstance(den_v, ast.Call) and repo.resolve_call(inner, den_v) == "spikeglx._get_max_int_from_meta"
-        g = [norm(t) for t, pol in cfg.guards(cfg.node_for(r)) if pol]
-        gneg = [norm(t) for t, pol in cfg.guards(cfg.node_for(r)) if not pol]
-        imec = any("imec" in x for x in g)
-        not_imec = any("imec" in x for x in gneg)
-        key_ok = ("imAiRangeMax" in src(num)) if imec else ("niAiRangeMax" in src(num)) if not_imec else False
-        ctx.check(ok_den and key_ok, fi, r, r, "int2volt = device range key / max-int",
-                  f"`{src(r)}` is not <imAiRangeMax|niAiRangeMax for the right device> / _get_max_int_from_meta(md)", key=f"int2volt:{'imec' if imec else 'nidq'}")
+        ok_den = isinstance(den, ast.Call) and repo.resolve_call(owner, den) == "spikeglx._get_max_int_from_meta"
+        at = GD.Atoms()
+        pc = GD.And(*[GD.formula(t, at, pol) for t, pol in gs])
+        imec_atoms = [k for k in GD.atoms_of(pc) if "'imec'" in k and "typeThis" in k]
+        imec = any(GD.entails(pc, GD.Atom(k)) is True for k in imec_atoms)
+        not_imec = any(GD.entails(pc, GD.Not(GD.Atom(k))) is True for k in imec_atoms)
+        key = None
+        if isinstance(num, ast.Call) and call_name(num) == "get" and num.args:
+            key = const_value(num.args[0])[1]
+        elif isinstance(num, ast.Subscript):
+            key = const_value(num.slice)[1]
+        key_ok = key == "imAiRangeMax" if imec else key == "niAiRangeMax" if not_imec else False
+        ctx.check(ok_den and key_ok, fi, at_node, v, "int2volt = device range key / max-int",
+                  f"`{src(v)}` is not <imAiRangeMax|niAiRangeMax for the right device> / _get_max_int_from_meta(md)", key=f"int2volt:{'imec' if imec else 'nidq'}")
     if n < 2:
-        raise AnchorMissing("int2volts: expected two range/max-int returns")
+        raise AnchorMissing("int2volts: expected two range/max-int alternatives")
 
 
 def d8_nidq_segments(ctx):
